@@ -14,7 +14,7 @@ from lib.common import MachineryError, classify_mismatches, log
 PKG = "./p2p/host/basic"
 
 INV = "INVARIANTS TypeOK RightHandler"
-PROPS = "PROPERTIES OpenBinds Agreement Dispatch OneHandler NoCommon RemovedNeverRuns"
+PROPS = "PROPERTIES OpenBinds Agreement Dispatch OneHandler NoCommon RemovedNeverRuns CommonMeansSuccess KnowledgeSources"
 
 
 def _fast_unescape(s, _slow=tlc._unescape):
@@ -24,10 +24,13 @@ def _fast_unescape(s, _slow=tlc._unescape):
 tlc._unescape = _fast_unescape
 
 
-def inst(name, host="basic", push=False, slots=1, maxtbl=2, reqs="MCReqs3", entries="MCEntriesFull"):
+def inst(name, host="basic", push=False, slots=1, maxtbl=2, reqs="MCReqs3", entries="MCEntriesFull", bidir=False,
+         tokens="MCP"):
+    """bidir: both hosts register handlers and open streams to each other on the one connection."""
     return name, {"Entries <- ": entries, "Reqs <- ": reqs, "Slots <- ": "MCSlots%d" % slots, "MaxTbl": maxtbl,
+                  "Tokens <- ": tokens, "Dialers <- ": "Both" if bidir else "OnlyA", "Servers <- ": "Both" if bidir else "OnlyB",
                   "Lazy": "TRUE" if host == "basic" else "FALSE", "Push": "TRUE" if push else "FALSE"}, \
-        {"host": host, "push": push, "slots": slots, "maxtbl": maxtbl, "reqs": reqs, "entries": entries}
+        {"host": host, "push": push, "slots": slots, "maxtbl": maxtbl, "reqs": reqs, "entries": entries, "bidir": bidir}
 
 
 def replay_instances(ctx):
@@ -42,6 +45,9 @@ def replay_instances(ctx):
         inst("basic-2streams", slots=2, reqs="MCReqs2", entries="MCEntriesSmall"),
         # the second host implementation: always negotiates
         inst("blank-2streams", host="blank", slots=2, reqs="MCReqs2", entries="MCEntriesSmall"),
+        # BOTH hosts serve and dial on the one connection (one entry each out of 3, request lists of 1..2 ids): what a
+        # host learns by SERVING a stream must not leak into its choices as a dialer
+        inst("bidir-nopush", bidir=True, maxtbl=1, reqs="MCReqs2ab", entries="MCEntriesBi", tokens="MCTokens1"),
     ]
     if ctx.tier == "thorough":
         out += [
@@ -50,6 +56,8 @@ def replay_instances(ctx):
             inst("basic-2streams-r3", slots=2, entries="MCEntriesSmall"),
             inst("basic-2streams-push", push=True, slots=2, reqs="MCReqs2"),
             inst("blank-t3", host="blank", maxtbl=3),
+            inst("bidir-nopush-t2", bidir=True, maxtbl=2, reqs="MCReqs2ab", entries="MCEntriesBi", tokens="MCTokens1"),
+            inst("bidir-push", bidir=True, push=True, maxtbl=2, reqs="MCReqs2ab", entries="MCEntriesBi", tokens="MCTokens1"),
         ]
     return out
 
@@ -58,7 +66,8 @@ def exhaustive_instances(ctx):
     """Bigger instances checked exhaustively only."""
     if ctx.tier == "thorough":
         return [inst("big-2streams-t3", slots=2, maxtbl=3), inst("big-2streams-t3-push", push=True, slots=2, maxtbl=3),
-                inst("big-2streams-t4", slots=2, maxtbl=4, reqs="MCReqs2"), inst("big-1stream-t4", maxtbl=4)]
+                inst("big-2streams-t4", slots=2, maxtbl=4, reqs="MCReqs2"), inst("big-1stream-t4", maxtbl=4),
+                inst("big-bidir-2streams", bidir=True, slots=2, maxtbl=1, reqs="MCReqs2ab", entries="MCEntriesBi", tokens="MCTokens1")]
     return [inst("big-2streams-q", slots=2, maxtbl=2)]
 
 
@@ -98,7 +107,13 @@ def _reach(args):
     return probe
 
 
+def _accepts(e, p):
+    return (e["k"] == "exact" and p == e["n"]) or (e["k"] == "prefix" and (p == e["n"] or p.startswith(e["n"] + "/"))) \
+        or (e["k"] == "sub" and p.startswith(e["n"] + "/"))
+
+
 def _edge_stats(g):
+    """Kinds of transitions in the printed graph (vacuity guards are evaluated on what is actually replayed)."""
     st = {}
 
     def inc(k):
@@ -107,8 +122,15 @@ def _edge_stats(g):
         n = op["name"]
         if n == "open":
             inc("open_" + op["res"])
+            if op["d"] == "B":
+                inc("open_by_B_" + op["res"])
+            ltbl = g.states[s]["tbl"]["B" if op["d"] == "A" else "A"]
             if op["res"] == "lazy" and len(op["req"]) > 1 and op["p"] != op["req"][0]:
                 inc("open_lazy_later_entry")
+                if any(_accepts(e, op["req"][0]) for e in ltbl):
+                    inc("open_lazy_later_entry_although_first_accepted")
+            if op["res"] == "est" and sum(1 for e in ltbl if _accepts(e, op["p"])) > 1:
+                inc("open_est_two_acceptors")
             if op["res"] == "est" and op["h"]["n"] != op["p"]:
                 inc("open_est_by_matcher")
             if op["res"] == "est" and op["p"] != op["req"][0]:
@@ -137,6 +159,11 @@ def _replay_instance(args):
     if g.n_edges() == 0:
         raise MachineryError("no edges printed for " + name)
     stats = _edge_stats(g)
+    if meta.get("bidir"):
+        rev, fwd = _bidir_guard(g)
+        if not rev or not fwd:
+            raise MachineryError("vacuity guard: bidirectional history class missing in %s (%d, %d)" % (name, rev, fwd))
+        stats["bidir_reverse_open_of_unserved_id"], stats["bidir_forward_open_past_own_id"] = rev, fwd
     walks = g.covering_walks(seed=ctx.seed, max_len=120)
     steps = sum(len(w["steps"]) for w in walks)
     hdr = dict(meta)
@@ -150,12 +177,28 @@ def _concurrent(ctx):
 
 
 REQUIRED_KINDS = {
-    "basic": ("open_fail", "open_lazy", "open_est", "open_lazy_later_entry", "open_est_by_matcher", "open_est_not_first",
+    "basic": ("open_fail", "open_lazy", "open_est", "open_lazy_later_entry", "open_lazy_later_entry_although_first_accepted",
+              "open_est_two_acceptors", "open_est_by_matcher", "open_est_not_first",
               "use_first_ok", "use_first_fail", "use_first_by_matcher", "use_again", "use_token_payload_stray",
               "use_token_payload_nostray", "close_est",
-              "close_unused_handler", "close_unused_nohandler", "add", "remove", "forget", "learn"),
+              "close_unused_handler", "close_unused_nohandler", "add", "remove", "forget", "learn",
+              "open_by_B_est", "open_by_B_lazy", "open_by_B_fail", "bidir_reverse_open_of_unserved_id"),
     "blank": ("open_fail", "open_est", "open_est_by_matcher", "open_est_not_first", "use_again", "close_est", "add", "remove"),
 }
+
+
+def _bidir_guard(g):
+    """The history class the bidirectional instance exists for must be in the graph: host B (not serving X) can
+    establish X towards A while A's book about B lacks X, and A can then open a list with X before an id B serves."""
+    rev = fwd = 0
+    for s, op, t in g.edges:
+        if op["name"] == "open" and op["d"] == "B" and op["res"] in ("est", "lazy") and op["p"] not in \
+                [e["n"] for e in g.states[s]["tbl"]["B"]] and op["p"] not in g.states[s]["K"]["A"]:
+            rev += 1
+        if op["name"] == "open" and op["d"] == "A" and len(op["req"]) > 1 and op["res"] != "fail" and op["p"] != op["req"][0] \
+                and any(e["n"] == op["req"][0] for e in g.states[s]["tbl"]["A"]):
+            fwd += 1
+    return rev, fwd
 
 
 def run(ctx):
@@ -172,7 +215,9 @@ def run(ctx):
         fc = pc.submit(_concurrent, ctx)
         fe = [pe.submit(_exhaustive, (ctx, i)) for i in einsts]
         fr = [pr.submit(_replay_instance, (ctx, i, beh_dir)) for i in rinsts]
-        fg = [pr.submit(_reach, (ctx, rinsts[0], probe)) for probe in ("ReachStaleFail", "ReachLaterWins", "ReachOverlap", "NoStray")]
+        # design-level statement of the known finding: TLC must find NoStray violated (the Reach* state predicates
+        # of the spec are evaluated on the printed graphs instead, see REQUIRED_KINDS)
+        fg = [pr.submit(_reach, (ctx, rinsts[0], probe)) for probe in ("NoStray",)]
         eres = [f.result() for f in fe]
         rres = [f.result() for f in fr]
         guards = [f.result() for f in fg]
